@@ -65,8 +65,10 @@ Proof.
 Qed.
 
 (* ------------------------------------------------------------------ float(str(v)) against the version order *)
+Lemma digits_aux_small : forall f n, n < 10 -> digits_aux (S f) n = 1%nat.
+Proof. intros f n H; simpl; destruct (n <? 10) eqn:E; [reflexivity | lia]. Qed.
 Lemma digits_small : forall n, n < 10 -> digits n = 1%nat.
-Proof. intros n H; unfold digits; simpl; destruct (n <? 10) eqn:E; [reflexivity | lia]. Qed.
+Proof. intros n H; unfold digits; apply (digits_aux_small 29 n H). Qed.
 
 (* with one-digit minors, as in every KMIP version published so far, comparing the floats is comparing the versions *)
 Lemma float_ltb_one_digit : forall a b : ver, snd a < 10 -> snd b < 10 -> 0 <= snd a -> 0 <= snd b ->
@@ -146,9 +148,9 @@ Proof.
   destruct (lookup_handler op) as [h|] eqn:E; [|split; reflexivity].
   exists (fold_right ver_max (0, 0) (handler_args h)); split; [reflexivity|].
   pose proof gate_table_ok_true as G; unfold gate_table_ok in G.
-  pose proof (forallb_In _ _ _ v G Hv) as G1; simpl in G1.
+  pose proof (forallb_In _ _ _ v G Hv) as G1; cbv beta in G1; cbn [fst snd] in G1.
   unfold lookup_handler in E; apply assoc_z_In in E.
-  pose proof (forallb_In _ _ _ (op, h) G1 E) as G2; simpl in G2.
+  pose proof (forallb_In _ _ _ (op, h) G1 E) as G2; cbv beta in G2; cbn [fst snd] in G2.
   apply eqb_prop in G2; rewrite G2; reflexivity.
 Qed.
 
@@ -308,8 +310,8 @@ Lemma query_ops_available_lemma : forall v op, In v supported_versions -> In op 
   (exists s, spec_op_min op = Some s /\ ver_leb s v = true).
 Proof.
   intros v op Hv Hop; pose proof query_table_ok_true as Q; unfold query_table_ok in Q.
-  pose proof (forallb_In _ _ _ v Q Hv) as Q1; simpl in Q1.
-  pose proof (forallb_In _ _ _ op Q1 Hop) as Q2; simpl in Q2.
+  pose proof (forallb_In _ _ _ v Q Hv) as Q1; cbv beta in Q1; cbn [fst snd] in Q1.
+  pose proof (forallb_In _ _ _ op Q1 Hop) as Q2; cbv beta in Q2; cbn [fst snd] in Q2.
   apply andb_true_iff in Q2; destruct Q2 as [Q2 Q3]; apply andb_true_iff in Q2; destruct Q2 as [Q2 Q4].
   split; [|split].
   - unfold gate_runs in Q2; destruct (gate v op) as [h| |]; try discriminate; exists h; reflexivity.
@@ -429,9 +431,9 @@ Proof.
   intros v op s Hv Hs Hlt; unfold gate_runs, gate.
   destruct (lookup_handler op) as [h|] eqn:E; [|reflexivity].
   pose proof spec_gate_ok_true as G; unfold spec_gate_ok in G.
-  pose proof (forallb_In _ _ _ v G Hv) as G1; simpl in G1.
+  pose proof (forallb_In _ _ _ v G Hv) as G1; cbv beta in G1; cbn [fst snd] in G1.
   unfold lookup_handler in E; pose proof (assoc_z_In _ _ _ _ E) as E'.
-  pose proof (forallb_In _ _ _ (op, h) G1 E') as G2; simpl in G2.
+  pose proof (forallb_In _ _ _ (op, h) G1 E') as G2; cbv beta in G2; cbn [fst snd] in G2.
   rewrite Hs, Hlt in G2; simpl in G2; unfold gate_runs, gate, lookup_handler in G2; rewrite E in G2.
   destruct (existsb (decorator_refuses v) (handler_args h)); [reflexivity | discriminate].
 Qed.
@@ -441,7 +443,7 @@ Proof.
   intros v n H; unfold attr_supported; destruct (find_rule n) as [r|] eqn:E; [|reflexivity].
   destruct tables_agree as [_ [_ [A _]]]; unfold attrs_agree_with_spec in A.
   unfold find_rule in E; apply find_some in E; destruct E as [E1 E2]; apply String.eqb_eq in E2.
-  pose proof (forallb_In _ _ _ r A E1) as A1; simpl in A1; apply andb_true_iff in A1; destruct A1 as [A1 _].
+  pose proof (forallb_In _ _ _ r A E1) as A1; cbv beta in A1; cbn [fst snd] in A1; apply andb_true_iff in A1; destruct A1 as [A1 _].
   apply ver_eqb_eq in A1; rewrite A1, E2, ver_geb_negb_ltb, H; reflexivity.
 Qed.
 
@@ -450,9 +452,9 @@ Lemma field_gated_lemma : forall cls t v0 v, In (cls, t, v0) SpecFieldVersions -
   tag_allowed cls v t = ver_leb v0 v.
 Proof.
   intros cls t v0 v Hin Hv; destruct tables_agree as [_ [_ [_ [_ [F _]]]]]; unfold fields_agree_with_spec in F.
-  pose proof (forallb_In _ _ _ (cls, t, v0) F Hin) as F1; simpl in F1.
+  pose proof (forallb_In _ _ _ (cls, t, v0) F Hin) as F1; cbv beta in F1; cbn [fst snd] in F1.
   apply andb_true_iff in F1; destruct F1 as [_ F2].
-  pose proof (forallb_In _ _ _ v F2 Hv) as F3; simpl in F3; apply eqb_prop in F3.
+  pose proof (forallb_In _ _ _ v F2 Hv) as F3; cbv beta in F3; cbn [fst snd] in F3; apply eqb_prop in F3.
   rewrite F3, ver_leb_geb; reflexivity.
 Qed.
 
@@ -460,7 +462,7 @@ Lemma class_gated_lemma : forall cls v0, In (cls, v0) SpecClassVersions ->
   class_min_version "read" cls = Some v0 /\ class_min_version "write" cls = Some v0.
 Proof.
   intros cls v0 Hin; destruct tables_agree as [_ [_ [_ [_ [_ [C _]]]]]]; unfold classes_agree_with_spec in C.
-  pose proof (forallb_In _ _ _ (cls, v0) C Hin) as C1; simpl in C1.
+  pose proof (forallb_In _ _ _ (cls, v0) C Hin) as C1; cbv beta in C1; cbn [fst snd] in C1.
   apply andb_true_iff in C1; destruct C1 as [C1 C2]; unfold ver_opt_eqb in *.
   destruct (class_min_version "read" cls) as [a|]; [|discriminate].
   destruct (class_min_version "write" cls) as [b|]; [|discriminate].
@@ -478,7 +480,7 @@ Lemma class_refused_lemma : forall cls v0 v, In (cls, v0) SpecClassVersions -> I
   class_refused_in "read" cls v = ver_ltb v v0 /\ class_refused_in "write" cls v = ver_ltb v v0.
 Proof.
   intros cls v0 v Hin Hv; pose proof class_refused_table_ok_true as C; unfold class_refused_table_ok in C.
-  pose proof (forallb_In _ _ _ (cls, v0) C Hin) as C1; simpl in C1.
-  pose proof (forallb_In _ _ _ v C1 Hv) as C2; simpl in C2.
+  pose proof (forallb_In _ _ _ (cls, v0) C Hin) as C1; cbv beta in C1; cbn [fst snd] in C1.
+  pose proof (forallb_In _ _ _ v C1 Hv) as C2; cbv beta in C2; cbn [fst snd] in C2.
   apply andb_true_iff in C2; destruct C2 as [C2 C3]; apply eqb_prop in C2; apply eqb_prop in C3; split; assumption.
 Qed.
